@@ -265,20 +265,24 @@ def prepStep (g2 : G2) (st : G2 × List (Fq2 × Fq2 × Fq2)) (i : Nat) : G2 × L
     (p, coeffs ++ [coeff])
   else (p, coeffs)
 
+/-- the `for i in (0..bits).rev()` loop of `G2Prepared::from` -/
+def prepLoop (g2 : G2) : G2 × List (Fq2 × Fq2 × Fq2) := loopIdx.foldl (prepStep g2) (g2, [])
+
+/-- the two Frobenius line steps after the loop -/
+def prepTail (g2 : G2) (st : G2 × List (Fq2 × Fq2 × Fq2)) : Outcome G2Prepared :=
+  match G2m.q_power_frobenius g2 (Fq2.new pi1 0) with
+  | none => .panic            -- `.unwrap()`
+  | some ka =>
+    let r1 := G2m.g_line st.1 ka
+    match G2m.q_power_frobenius ka (Fq2.new pi1 0) with
+    | none => .panic          -- `.unwrap()`
+    | some ka2 =>
+      let r2 := G2m.g_line r1.1 ka2.neg
+      .ok { coeffs := (st.2 ++ [r1.2]) ++ [r2.2] }
+
 /-- `From<G2> for G2Prepared` (pairings.rs; the argument is expected normalised) -/
 def from_ (g2 : G2) : Outcome G2Prepared :=
-  if g2.is_zero then .ok { coeffs := [] } else
-  let (p, coeffs) := loopIdx.foldl (prepStep g2) (g2, [])
-  let frob := Fq2.new pi1 0
-  do
-    let ka ← Outcome.unwrap (G2m.q_power_frobenius g2 frob)
-    let (p, coeff) := G2m.g_line p ka
-    let coeffs := coeffs ++ [coeff]
-    let ka2 ← Outcome.unwrap (G2m.q_power_frobenius ka frob)
-    let ka := ka2.neg
-    let (_, coeff) := G2m.g_line p ka
-    let coeffs := coeffs ++ [coeff]
-    pure { coeffs }
+  if g2.is_zero then .ok { coeffs := [] } else prepTail g2 (prepLoop g2)
 
 def get_fq12 (c : Fq2 × Fq2 × Fq2) (t1 : Fq2) (x : Fq) : Fq12 :=
   { c0 := Fq4.new (c.1 * t1) c.2.1, c1 := Fq4.zero, c2 := Fq4.new Fq2.zero (c.2.2.scale x) }
